@@ -15,6 +15,7 @@ using namespace nifly;
 
 struct Snap {
 	std::vector<NiObject*> blocks;
+	std::map<NiObject*, std::string> name;  // never dereference a block pointer taken before the operation: it may be gone
 	std::map<NiRef*, NiObject*> target;   // reference cell -> designated block (null = empty / dangling)
 };
 
@@ -22,7 +23,7 @@ static void cells(NiObject* b, std::set<NiRef*>& out) { b->GetChildRefs(out); b-
 
 static Snap snap(NiHeader& hdr) {
 	Snap s;
-	for (uint32_t i = 0; i < hdr.GetNumBlocks(); i++) s.blocks.push_back(hdr.GetBlock<NiObject>(i));
+	for (uint32_t i = 0; i < hdr.GetNumBlocks(); i++) { s.blocks.push_back(hdr.GetBlock<NiObject>(i)); s.name[s.blocks.back()] = s.blocks.back()->GetBlockName(); }
 	for (auto b : s.blocks) { std::set<NiRef*> c; cells(b, c); for (auto r : c) s.target[r] = (r->IsEmpty() || r->index >= s.blocks.size()) ? nullptr : s.blocks[r->index]; }
 	return s;
 }
@@ -44,7 +45,7 @@ static std::string check(NiHeader& hdr, const Snap& before, const std::set<NiObj
 			NiObject* want = deleted.count(it->second) ? nullptr : it->second;
 			NiObject* got = (r->IsEmpty() || r->index >= now.size()) ? nullptr : now[r->index];
 			if (it->second == nullptr && !r->IsEmpty() && r->index >= before.blocks.size()) continue;   // was out of range before: left alone
-			if (want != got) return std::string("a reference of a ") + b->GetBlockName() + " designated " + (it->second ? it->second->GetBlockName() : "nothing") + " and now designates " + (got ? got->GetBlockName() : "nothing") + " (index " + std::to_string(r->index) + ")";
+			if (want != got) return std::string("a reference of a ") + b->GetBlockName() + " designated " + (it->second ? (before.name.count(it->second) ? before.name.at(it->second) : std::string("a new block")) : std::string("nothing")) + " and now designates " + (got ? got->GetBlockName() : "nothing") + " (index " + std::to_string(r->index) + ")";
 		}
 	}
 	// every type name used
@@ -94,7 +95,7 @@ int main(int argc, char** argv) {
 				NifFile nif; build(nif, code); auto& hdr = nif.GetHeader();
 				// disturb the first-appearance order of the type table
 				if (code & 2) { auto nb = std::make_unique<NiFloatInterpolator>(); hdr.ReplaceBlock(1, std::move(nb)); }
-				Snap s = snap(hdr); std::set<NiObject*> del; for (auto b : s.blocks) if (std::string(b->GetBlockName()) == ty) del.insert(b);
+				Snap s = snap(hdr); std::set<NiObject*> del; for (auto b : s.blocks) if (s.name[b] == ty) del.insert(b);
 				hdr.DeleteBlockByType(ty);
 				auto why = check(hdr, s, del); if (!why.empty()) return fail("DeleteBlockByType", code, ty, why);
 				if (hdr.GetNumBlocks() != s.blocks.size() - del.size()) return fail("DeleteBlockByType", code, ty, "deleted " + std::to_string(s.blocks.size() - hdr.GetNumBlocks()) + " blocks, " + std::to_string(del.size()) + " have that type");
